@@ -2,9 +2,8 @@ import QmiModel.Props.C05
 import QmiModel.Gen.RpcClasses
 /-! GENERATED on every run by harness/props/c05.py (`translate`) — do not edit.
 Per shipped class the obligation `WellFormed gen_<Class>` (hypothesis of `dispatch_sound`), discharged by
-kernel evaluation.  Where a class is not well-formed on the tree under test, the exceptions are listed
-(`wf_partial_…`, hypothesis of `dispatch_sound_partial`) and each exception gets a computed witness of the
-negation of the property at that name. -/
+kernel evaluation.  Should a class not be well-formed on the tree under test, the exceptions are listed
+(`wf_except_…`) and each exception gets a computed witness `not_ok_…` of the failure at that name. -/
 namespace QmiModel.Gen
 open QmiModel.RpcClass
 
@@ -61,27 +60,15 @@ theorem wf_Montana_CryostationS50 : WellFormed gen_Montana_CryostationS50 := wf_
 
 theorem wf_Newport_AG_UC8 : WellFormed gen_Newport_AG_UC8 := wf_of_syn gen_Newport_AG_UC8 (by decide +kernel)
 
-/-- NOT well-formed: controller_address -/
-theorem wf_partial_Newport_ConexCC : WellFormedExcept gen_Newport_ConexCC [728208074028316448667320542742226003262250789570781462308908626173237712434881728972967505576465849124763] := wfExcept_of_syn gen_Newport_ConexCC [728208074028316448667320542742226003262250789570781462308908626173237712434881728972967505576465849124763] (by decide +kernel)
-/-- `controller_address`: a getter runs on lookup although the name is not invokable -/
-theorem getter_runs_Newport_ConexCC__controller_address : invokable gen_Newport_ConexCC 728208074028316448667320542742226003262250789570781462308908626173237712434881728972967505576465849124763 = false ∧ effects gen_Newport_ConexCC 728208074028316448667320542742226003262250789570781462308908626173237712434881728972967505576465849124763 = [.getterRan 728208074028316448667320542742226003262250789570781462308908626173237712434881728972967505576465849124763] ∧ reply gen_Newport_ConexCC 728208074028316448667320542742226003262250789570781462308908626173237712434881728972967505576465849124763 = .getterDecides := by decide +kernel
+theorem wf_Newport_ConexCC : WellFormed gen_Newport_ConexCC := wf_of_syn gen_Newport_ConexCC (by decide +kernel)
 
 theorem wf_Newport_843R : WellFormed gen_Newport_843R := wf_of_syn gen_Newport_843R (by decide +kernel)
 
-/-- NOT well-formed: controller_address -/
-theorem wf_partial_Newport_SingleAxisMotionController : WellFormedExcept gen_Newport_SingleAxisMotionController [728208074028316448667320542742226003262250789570781462308908626173237712434881728972967505576465849124763] := wfExcept_of_syn gen_Newport_SingleAxisMotionController [728208074028316448667320542742226003262250789570781462308908626173237712434881728972967505576465849124763] (by decide +kernel)
-/-- `controller_address`: a getter runs on lookup although the name is not invokable -/
-theorem getter_runs_Newport_SingleAxisMotionController__controller_address : invokable gen_Newport_SingleAxisMotionController 728208074028316448667320542742226003262250789570781462308908626173237712434881728972967505576465849124763 = false ∧ effects gen_Newport_SingleAxisMotionController 728208074028316448667320542742226003262250789570781462308908626173237712434881728972967505576465849124763 = [.getterRan 728208074028316448667320542742226003262250789570781462308908626173237712434881728972967505576465849124763] ∧ reply gen_Newport_SingleAxisMotionController 728208074028316448667320542742226003262250789570781462308908626173237712434881728972967505576465849124763 = .getterDecides := by decide +kernel
+theorem wf_Newport_SingleAxisMotionController : WellFormed gen_Newport_SingleAxisMotionController := wf_of_syn gen_Newport_SingleAxisMotionController (by decide +kernel)
 
-/-- NOT well-formed: controller_address -/
-theorem wf_partial_Newport_SMC100CC : WellFormedExcept gen_Newport_SMC100CC [728208074028316448667320542742226003262250789570781462308908626173237712434881728972967505576465849124763] := wfExcept_of_syn gen_Newport_SMC100CC [728208074028316448667320542742226003262250789570781462308908626173237712434881728972967505576465849124763] (by decide +kernel)
-/-- `controller_address`: a getter runs on lookup although the name is not invokable -/
-theorem getter_runs_Newport_SMC100CC__controller_address : invokable gen_Newport_SMC100CC 728208074028316448667320542742226003262250789570781462308908626173237712434881728972967505576465849124763 = false ∧ effects gen_Newport_SMC100CC 728208074028316448667320542742226003262250789570781462308908626173237712434881728972967505576465849124763 = [.getterRan 728208074028316448667320542742226003262250789570781462308908626173237712434881728972967505576465849124763] ∧ reply gen_Newport_SMC100CC 728208074028316448667320542742226003262250789570781462308908626173237712434881728972967505576465849124763 = .getterDecides := by decide +kernel
+theorem wf_Newport_SMC100CC : WellFormed gen_Newport_SMC100CC := wf_of_syn gen_Newport_SMC100CC (by decide +kernel)
 
-/-- NOT well-formed: controller_address -/
-theorem wf_partial_Newport_SMC100PP : WellFormedExcept gen_Newport_SMC100PP [728208074028316448667320542742226003262250789570781462308908626173237712434881728972967505576465849124763] := wfExcept_of_syn gen_Newport_SMC100PP [728208074028316448667320542742226003262250789570781462308908626173237712434881728972967505576465849124763] (by decide +kernel)
-/-- `controller_address`: a getter runs on lookup although the name is not invokable -/
-theorem getter_runs_Newport_SMC100PP__controller_address : invokable gen_Newport_SMC100PP 728208074028316448667320542742226003262250789570781462308908626173237712434881728972967505576465849124763 = false ∧ effects gen_Newport_SMC100PP 728208074028316448667320542742226003262250789570781462308908626173237712434881728972967505576465849124763 = [.getterRan 728208074028316448667320542742226003262250789570781462308908626173237712434881728972967505576465849124763] ∧ reply gen_Newport_SMC100PP 728208074028316448667320542742226003262250789570781462308908626173237712434881728972967505576465849124763 = .getterDecides := by decide +kernel
+theorem wf_Newport_SMC100PP : WellFormed gen_Newport_SMC100PP := wf_of_syn gen_Newport_SMC100PP (by decide +kernel)
 
 theorem wf_NewFocus_TLB670X : WellFormed gen_NewFocus_TLB670X := wf_of_syn gen_NewFocus_TLB670X (by decide +kernel)
 
@@ -97,64 +84,19 @@ theorem wf_Parallax_UsbPropeller : WellFormed gen_Parallax_UsbPropeller := wf_of
 
 theorem wf_PI_E873 : WellFormed gen_PI_E873 := wf_of_syn gen_PI_E873 (by decide +kernel)
 
-/-- NOT well-formed: _max_dev_num, _ttreadmax, _model, _lib -/
-theorem wf_partial__PicoquantHarp : WellFormedExcept gen__PicoquantHarp [361089419655612775874505499447721093256032132555195620289285923013886, 319999177730159344282521748222322208323526023407212364851, 187099691662174330525323875451510, 136906269720010424730] := wfExcept_of_syn gen__PicoquantHarp [361089419655612775874505499447721093256032132555195620289285923013886, 319999177730159344282521748222322208323526023407212364851, 187099691662174330525323875451510, 136906269720010424730] (by decide +kernel)
-/-- `_max_dev_num`: a getter runs on lookup although the name is not invokable -/
-theorem getter_runs__PicoquantHarp___max_dev_num : invokable gen__PicoquantHarp 361089419655612775874505499447721093256032132555195620289285923013886 = false ∧ effects gen__PicoquantHarp 361089419655612775874505499447721093256032132555195620289285923013886 = [.getterRan 361089419655612775874505499447721093256032132555195620289285923013886] ∧ reply gen__PicoquantHarp 361089419655612775874505499447721093256032132555195620289285923013886 = .getterDecides := by decide +kernel
-/-- `_ttreadmax`: a getter runs on lookup although the name is not invokable -/
-theorem getter_runs__PicoquantHarp___ttreadmax : invokable gen__PicoquantHarp 319999177730159344282521748222322208323526023407212364851 = false ∧ effects gen__PicoquantHarp 319999177730159344282521748222322208323526023407212364851 = [.getterRan 319999177730159344282521748222322208323526023407212364851] ∧ reply gen__PicoquantHarp 319999177730159344282521748222322208323526023407212364851 = .getterDecides := by decide +kernel
-/-- `_model`: a getter runs on lookup although the name is not invokable -/
-theorem getter_runs__PicoquantHarp___model : invokable gen__PicoquantHarp 187099691662174330525323875451510 = false ∧ effects gen__PicoquantHarp 187099691662174330525323875451510 = [.getterRan 187099691662174330525323875451510] ∧ reply gen__PicoquantHarp 187099691662174330525323875451510 = .getterDecides := by decide +kernel
-/-- `_lib`: a getter runs on lookup although the name is not invokable -/
-theorem getter_runs__PicoquantHarp___lib : invokable gen__PicoquantHarp 136906269720010424730 = false ∧ effects gen__PicoquantHarp 136906269720010424730 = [.getterRan 136906269720010424730] ∧ reply gen__PicoquantHarp 136906269720010424730 = .getterDecides := by decide +kernel
+theorem wf__PicoquantHarp : WellFormed gen__PicoquantHarp := wf_of_syn gen__PicoquantHarp (by decide +kernel)
 
-/-- NOT well-formed: _max_dev_num, _ttreadmax, _model, _lib -/
-theorem wf_partial_PicoQuant_HydraHarp400 : WellFormedExcept gen_PicoQuant_HydraHarp400 [361089419655612775874505499447721093256032132555195620289285923013886, 319999177730159344282521748222322208323526023407212364851, 187099691662174330525323875451510, 136906269720010424730] := wfExcept_of_syn gen_PicoQuant_HydraHarp400 [361089419655612775874505499447721093256032132555195620289285923013886, 319999177730159344282521748222322208323526023407212364851, 187099691662174330525323875451510, 136906269720010424730] (by decide +kernel)
-/-- `_max_dev_num`: a getter runs on lookup although the name is not invokable -/
-theorem getter_runs_PicoQuant_HydraHarp400___max_dev_num : invokable gen_PicoQuant_HydraHarp400 361089419655612775874505499447721093256032132555195620289285923013886 = false ∧ effects gen_PicoQuant_HydraHarp400 361089419655612775874505499447721093256032132555195620289285923013886 = [.getterRan 361089419655612775874505499447721093256032132555195620289285923013886] ∧ reply gen_PicoQuant_HydraHarp400 361089419655612775874505499447721093256032132555195620289285923013886 = .getterDecides := by decide +kernel
-/-- `_ttreadmax`: a getter runs on lookup although the name is not invokable -/
-theorem getter_runs_PicoQuant_HydraHarp400___ttreadmax : invokable gen_PicoQuant_HydraHarp400 319999177730159344282521748222322208323526023407212364851 = false ∧ effects gen_PicoQuant_HydraHarp400 319999177730159344282521748222322208323526023407212364851 = [.getterRan 319999177730159344282521748222322208323526023407212364851] ∧ reply gen_PicoQuant_HydraHarp400 319999177730159344282521748222322208323526023407212364851 = .getterDecides := by decide +kernel
-/-- `_model`: a getter runs on lookup although the name is not invokable -/
-theorem getter_runs_PicoQuant_HydraHarp400___model : invokable gen_PicoQuant_HydraHarp400 187099691662174330525323875451510 = false ∧ effects gen_PicoQuant_HydraHarp400 187099691662174330525323875451510 = [.getterRan 187099691662174330525323875451510] ∧ reply gen_PicoQuant_HydraHarp400 187099691662174330525323875451510 = .getterDecides := by decide +kernel
-/-- `_lib`: a getter runs on lookup although the name is not invokable -/
-theorem getter_runs_PicoQuant_HydraHarp400___lib : invokable gen_PicoQuant_HydraHarp400 136906269720010424730 = false ∧ effects gen_PicoQuant_HydraHarp400 136906269720010424730 = [.getterRan 136906269720010424730] ∧ reply gen_PicoQuant_HydraHarp400 136906269720010424730 = .getterDecides := by decide +kernel
+theorem wf_PicoQuant_HydraHarp400 : WellFormed gen_PicoQuant_HydraHarp400 := wf_of_syn gen_PicoQuant_HydraHarp400 (by decide +kernel)
 
-/-- NOT well-formed: _max_dev_num, _ttreadmax, _model, _lib -/
-theorem wf_partial_PicoQuant_MultiHarp150 : WellFormedExcept gen_PicoQuant_MultiHarp150 [361089419655612775874505499447721093256032132555195620289285923013886, 319999177730159344282521748222322208323526023407212364851, 187099691662174330525323875451510, 136906269720010424730] := wfExcept_of_syn gen_PicoQuant_MultiHarp150 [361089419655612775874505499447721093256032132555195620289285923013886, 319999177730159344282521748222322208323526023407212364851, 187099691662174330525323875451510, 136906269720010424730] (by decide +kernel)
-/-- `_max_dev_num`: a getter runs on lookup although the name is not invokable -/
-theorem getter_runs_PicoQuant_MultiHarp150___max_dev_num : invokable gen_PicoQuant_MultiHarp150 361089419655612775874505499447721093256032132555195620289285923013886 = false ∧ effects gen_PicoQuant_MultiHarp150 361089419655612775874505499447721093256032132555195620289285923013886 = [.getterRan 361089419655612775874505499447721093256032132555195620289285923013886] ∧ reply gen_PicoQuant_MultiHarp150 361089419655612775874505499447721093256032132555195620289285923013886 = .getterDecides := by decide +kernel
-/-- `_ttreadmax`: a getter runs on lookup although the name is not invokable -/
-theorem getter_runs_PicoQuant_MultiHarp150___ttreadmax : invokable gen_PicoQuant_MultiHarp150 319999177730159344282521748222322208323526023407212364851 = false ∧ effects gen_PicoQuant_MultiHarp150 319999177730159344282521748222322208323526023407212364851 = [.getterRan 319999177730159344282521748222322208323526023407212364851] ∧ reply gen_PicoQuant_MultiHarp150 319999177730159344282521748222322208323526023407212364851 = .getterDecides := by decide +kernel
-/-- `_model`: a getter runs on lookup although the name is not invokable -/
-theorem getter_runs_PicoQuant_MultiHarp150___model : invokable gen_PicoQuant_MultiHarp150 187099691662174330525323875451510 = false ∧ effects gen_PicoQuant_MultiHarp150 187099691662174330525323875451510 = [.getterRan 187099691662174330525323875451510] ∧ reply gen_PicoQuant_MultiHarp150 187099691662174330525323875451510 = .getterDecides := by decide +kernel
-/-- `_lib`: a getter runs on lookup although the name is not invokable -/
-theorem getter_runs_PicoQuant_MultiHarp150___lib : invokable gen_PicoQuant_MultiHarp150 136906269720010424730 = false ∧ effects gen_PicoQuant_MultiHarp150 136906269720010424730 = [.getterRan 136906269720010424730] ∧ reply gen_PicoQuant_MultiHarp150 136906269720010424730 = .getterDecides := by decide +kernel
+theorem wf_PicoQuant_MultiHarp150 : WellFormed gen_PicoQuant_MultiHarp150 := wf_of_syn gen_PicoQuant_MultiHarp150 (by decide +kernel)
 
-/-- NOT well-formed: _max_dev_num, _ttreadmax, _model, _lib -/
-theorem wf_partial_PicoQuant_PicoHarp300 : WellFormedExcept gen_PicoQuant_PicoHarp300 [361089419655612775874505499447721093256032132555195620289285923013886, 319999177730159344282521748222322208323526023407212364851, 187099691662174330525323875451510, 136906269720010424730] := wfExcept_of_syn gen_PicoQuant_PicoHarp300 [361089419655612775874505499447721093256032132555195620289285923013886, 319999177730159344282521748222322208323526023407212364851, 187099691662174330525323875451510, 136906269720010424730] (by decide +kernel)
-/-- `_max_dev_num`: a getter runs on lookup although the name is not invokable -/
-theorem getter_runs_PicoQuant_PicoHarp300___max_dev_num : invokable gen_PicoQuant_PicoHarp300 361089419655612775874505499447721093256032132555195620289285923013886 = false ∧ effects gen_PicoQuant_PicoHarp300 361089419655612775874505499447721093256032132555195620289285923013886 = [.getterRan 361089419655612775874505499447721093256032132555195620289285923013886] ∧ reply gen_PicoQuant_PicoHarp300 361089419655612775874505499447721093256032132555195620289285923013886 = .getterDecides := by decide +kernel
-/-- `_ttreadmax`: a getter runs on lookup although the name is not invokable -/
-theorem getter_runs_PicoQuant_PicoHarp300___ttreadmax : invokable gen_PicoQuant_PicoHarp300 319999177730159344282521748222322208323526023407212364851 = false ∧ effects gen_PicoQuant_PicoHarp300 319999177730159344282521748222322208323526023407212364851 = [.getterRan 319999177730159344282521748222322208323526023407212364851] ∧ reply gen_PicoQuant_PicoHarp300 319999177730159344282521748222322208323526023407212364851 = .getterDecides := by decide +kernel
-/-- `_model`: a getter runs on lookup although the name is not invokable -/
-theorem getter_runs_PicoQuant_PicoHarp300___model : invokable gen_PicoQuant_PicoHarp300 187099691662174330525323875451510 = false ∧ effects gen_PicoQuant_PicoHarp300 187099691662174330525323875451510 = [.getterRan 187099691662174330525323875451510] ∧ reply gen_PicoQuant_PicoHarp300 187099691662174330525323875451510 = .getterDecides := by decide +kernel
-/-- `_lib`: a getter runs on lookup although the name is not invokable -/
-theorem getter_runs_PicoQuant_PicoHarp300___lib : invokable gen_PicoQuant_PicoHarp300 136906269720010424730 = false ∧ effects gen_PicoQuant_PicoHarp300 136906269720010424730 = [.getterRan 136906269720010424730] ∧ reply gen_PicoQuant_PicoHarp300 136906269720010424730 = .getterDecides := by decide +kernel
+theorem wf_PicoQuant_PicoHarp300 : WellFormed gen_PicoQuant_PicoHarp300 := wf_of_syn gen_PicoQuant_PicoHarp300 (by decide +kernel)
 
-/-- NOT well-formed: _ps_attr -/
-theorem wf_partial_PicoTech_PicoScope : WellFormedExcept gen_PicoTech_PicoScope [245020786532145670106215680612468074938696548] := wfExcept_of_syn gen_PicoTech_PicoScope [245020786532145670106215680612468074938696548] (by decide +kernel)
-/-- `_ps_attr`: a getter runs on lookup although the name is not invokable -/
-theorem getter_runs_PicoTech_PicoScope___ps_attr : invokable gen_PicoTech_PicoScope 245020786532145670106215680612468074938696548 = false ∧ effects gen_PicoTech_PicoScope 245020786532145670106215680612468074938696548 = [.getterRan 245020786532145670106215680612468074938696548] ∧ reply gen_PicoTech_PicoScope 245020786532145670106215680612468074938696548 = .getterDecides := by decide +kernel
+theorem wf_PicoTech_PicoScope : WellFormed gen_PicoTech_PicoScope := wf_of_syn gen_PicoTech_PicoScope (by decide +kernel)
 
-/-- NOT well-formed: _ps_attr -/
-theorem wf_partial_PicoTech_PicoScope3403 : WellFormedExcept gen_PicoTech_PicoScope3403 [245020786532145670106215680612468074938696548] := wfExcept_of_syn gen_PicoTech_PicoScope3403 [245020786532145670106215680612468074938696548] (by decide +kernel)
-/-- `_ps_attr`: a getter runs on lookup although the name is not invokable -/
-theorem getter_runs_PicoTech_PicoScope3403___ps_attr : invokable gen_PicoTech_PicoScope3403 245020786532145670106215680612468074938696548 = false ∧ effects gen_PicoTech_PicoScope3403 245020786532145670106215680612468074938696548 = [.getterRan 245020786532145670106215680612468074938696548] ∧ reply gen_PicoTech_PicoScope3403 245020786532145670106215680612468074938696548 = .getterDecides := by decide +kernel
+theorem wf_PicoTech_PicoScope3403 : WellFormed gen_PicoTech_PicoScope3403 := wf_of_syn gen_PicoTech_PicoScope3403 (by decide +kernel)
 
-/-- NOT well-formed: _ps_attr -/
-theorem wf_partial_PicoTech_PicoScope4824 : WellFormedExcept gen_PicoTech_PicoScope4824 [245020786532145670106215680612468074938696548] := wfExcept_of_syn gen_PicoTech_PicoScope4824 [245020786532145670106215680612468074938696548] (by decide +kernel)
-/-- `_ps_attr`: a getter runs on lookup although the name is not invokable -/
-theorem getter_runs_PicoTech_PicoScope4824___ps_attr : invokable gen_PicoTech_PicoScope4824 245020786532145670106215680612468074938696548 = false ∧ effects gen_PicoTech_PicoScope4824 245020786532145670106215680612468074938696548 = [.getterRan 245020786532145670106215680612468074938696548] ∧ reply gen_PicoTech_PicoScope4824 245020786532145670106215680612468074938696548 = .getterDecides := by decide +kernel
+theorem wf_PicoTech_PicoScope4824 : WellFormed gen_PicoTech_PicoScope4824 := wf_of_syn gen_PicoTech_PicoScope4824 (by decide +kernel)
 
 theorem wf_Pololu_Maestro : WellFormed gen_Pololu_Maestro := wf_of_syn gen_Pololu_Maestro (by decide +kernel)
 
